@@ -271,8 +271,16 @@ class Evaluator:
             st = self.ev(sl.step, f) if sl.step is not None else None
             if not all(x is None or (isinstance(x, int) and not isinstance(x, bool)) for x in (lo, hi, st)):
                 raise NotEval("symbolic slice bound")
+            if st == 0:
+                raise NotEval("slice step 0")
             return slice(lo, hi, st)
         v = self.ev(sl, f)
+        if isinstance(v, slice):
+            if not all(x is None or (isinstance(x, int) and not isinstance(x, bool)) for x in (v.start, v.stop, v.step)):
+                raise NotEval("symbolic slice bound")
+            if v.step == 0:
+                raise NotEval("slice step 0")
+            return v
         if isinstance(v, bool) or not isinstance(v, int):
             raise NotEval("symbolic index")
         return v
@@ -289,6 +297,13 @@ class Evaluator:
                     raise NotEval(f"{e.id} is unknown")
                 return v
             return self._resolve(e, f)
+        if isinstance(e, ast.Attribute) and e.attr in ("start", "stop", "step"):
+            try:
+                base = self.ev(e.value, f)
+            except NotEval:
+                base = None
+            if isinstance(base, slice):
+                return getattr(base, e.attr)
         if isinstance(e, ast.Attribute):
             key = ast.unparse(e)
             if key in f.attrs:
@@ -310,6 +325,11 @@ class Evaluator:
             return out if isinstance(e, ast.List) else tuple(out)
         if isinstance(e, ast.Subscript):
             base = self.ev(e.value, f)
+            if isinstance(base, dict) and not isinstance(e.slice, (ast.Slice, ast.Tuple)):
+                k = self.ev(e.slice, f)
+                if _concrete(k) and not isinstance(k, (list, dict)) and k in base:
+                    return base[k]
+                return self._resolve(e, f)
             if isinstance(base, (list, tuple, range)):
                 idx = self.index(e.slice, f)
                 try:
@@ -359,6 +379,31 @@ class Evaluator:
             if isinstance(t, (bool, int, type(None), list, tuple, str)):
                 return self.ev(e.body if t else e.orelse, f)
             raise NotEval("symbolic conditional")
+        if isinstance(e, ast.DictComp):
+            pairs = []
+            self._comp(e.generators, 0, ast.Tuple(elts=[e.key, e.value], ctx=ast.Load()), f, pairs)
+            from collections import OrderedDict
+            out = OrderedDict()
+            for k, v in pairs:
+                if not _concrete(k) or isinstance(k, (list, dict)):
+                    raise NotEval("symbolic dict key")
+                out[k] = v
+            return out
+        if isinstance(e, ast.Dict):
+            from collections import OrderedDict
+            out = OrderedDict()
+            for k, v in zip(e.keys, e.values):
+                if k is None:
+                    m = self.ev(v, f)
+                    if not isinstance(m, dict):
+                        raise NotEval("** of a non-mapping")
+                    out.update(m)
+                else:
+                    kk = self.ev(k, f)
+                    if not _concrete(kk) or isinstance(kk, (list, dict)):
+                        raise NotEval("symbolic dict key")
+                    out[kk] = self.ev(v, f)
+            return out
         if isinstance(e, (ast.ListComp, ast.GeneratorExp, ast.SetComp)):
             out = []
             self._comp(e.generators, 0, e.elt, f, out)
@@ -522,12 +567,19 @@ class Evaluator:
         if name == "isinstance" and len(e.args) == 2:
             v = self.ev(e.args[0], f)
             types = ast.unparse(e.args[1])
-            kinds = {"int": int, "float": float, "list": list, "tuple": tuple, "str": str, "dict": dict, "bool": bool}
+            kinds = {"int": int, "float": float, "list": list, "tuple": tuple, "str": str, "dict": dict, "bool": bool, "slice": slice}
+            if isinstance(v, slice):
+                return "slice" in types
             named = [k for k in kinds if k in types.replace("(", " ").replace(")", " ").replace(",", " ").split()]
             if isinstance(v, (int, float, str, dict, bool)) or (isinstance(v, (list, tuple)) and not isinstance(v, Vec1)):
                 if all(t in kinds for t in types.replace("(", " ").replace(")", " ").replace(",", " ").split()):
                     return any(isinstance(v, kinds[k]) and not (k == "int" and isinstance(v, bool)) for k in named)
             raise NotEval("isinstance of a symbolic value")
+        if name == "slice":
+            a = A()
+            if 1 <= len(a) <= 3 and all(x is None or _concrete(x) for x in a):
+                return slice(*a)
+            raise NotEval("symbolic slice")
         if name in ("range",):
             a = A()
             if all(isinstance(x, int) and not isinstance(x, bool) for x in a) and 1 <= len(a) <= 3:
